@@ -249,7 +249,7 @@ def harness(name, srcs=None, schemas=True, extra=()):
 
 harness('prim_exec', schemas=True)
 harness('codec_exec', schemas=True)
-harness('persist_model', schemas=False)
+harness('persist_model', schemas=True)
 harness('persist_crash', schemas=False)
 harness('logger_stress', schemas=False)
 harness('rotate_fs', schemas=False)
